@@ -20,6 +20,9 @@ ORD = ['segment', 'triangle', 'area']
 EPS = Fr(1, 2 ** 52)
 
 
+STACK7 = [[i + 1, y] for i, y in enumerate([4, 2, 6, 2, 1, 2, 9])]
+
+
 def cases(tier, seed):
     q = tier == 'quick'
     out = []
@@ -35,6 +38,11 @@ def cases(tier, seed):
                     if q and d == 'perpendicular' and o != 'triangle':
                         continue
                     out.append(dict(layer='L0', nra_at_decide=False, fn='chain', curve=ci, pos=pos, distance=d, order=o))
+    # 7-point curve whose refinement history leaves a cheaper pending segment above a dearer one unless the work stack is fully re-sorted after
+    # every split (three splittable segments pending at k = 5; seeded change C05e needs >= 7 points and k >= 6)
+    for pos in ([[3]] if q else [[i] for i in range(7)]):
+        for o in ORD:
+            out.append(dict(layer='L0', nra_at_decide=False, fn='chain', curve=STACK7, pos=pos, distance='shortest', order=o))
     for n in range(5 if q else 6, 1, -1):
         for d in DIST:
             for o in ORD:
@@ -137,4 +145,4 @@ LEVEL_TEXT = ('Bounded symbolic model checking. L1: the real rdp_fixed/_rdp_fixe
               'strictly interior to one retained segment and attains its maximal interior distance (or all are below eps), and that segment has the maximal '
               'ordering score among splittable retained segments, the scores being recomputed from their definitions (triangle = base*height/2, area = sum of distances, residual) on the same stubs, independently '
               'of the stack bookkeeping. L0: the same assertions with the real kernels inline on slices through pool curves.')
-LEVEL_NOTE = 'n <= 5/6 in L1 (all kernel behaviours, all paths), pool curves with 1-2 symbolic heights in L0; exact reals (T1); abstract L1 counterexamples need an L0 slice to be reported.'
+LEVEL_NOTE = 'n <= 5/6 in L1 (all kernel behaviours, all paths), pool curves (<= 6 points) and one 7-point stack-order curve with 1-2 symbolic heights in L0; exact reals (T1); abstract L1 counterexamples need an L0 slice to be reported.'
